@@ -43,7 +43,7 @@ package polynomial
 
 //@ func Polynomial.Scale
 //@ layer ring fr.Element
-//@ option slicealias
+//@ option slicealias prefix
 //@ loop 0
 //@ + invariant[prefix] 0 <= i && i <= len(p0) && len(*p) == len(p0) && forall(j, 0, i, (*p)[j] == old(*c) * old(p0[j])) && forall(j, i, len(p0), p0[j] == old(p0[j]))
 //@ ensures[length] len(*p) == len(p0)
@@ -61,7 +61,7 @@ package polynomial
 
 //@ func Polynomial.Sub
 //@ layer ring fr.Element
-//@ option slicealias
+//@ option slicealias prefix
 //@ loop 0
 //@ + invariant[prefix] 0 <= i && i <= len(*p) && len(*p) == old(len(*p)) && forall(j, 0, i, (*p)[j] == old(p1[j]) - old(p2[j])) && forall(j, i, len(*p), p1[j] == old(p1[j]) && p2[j] == old(p2[j]))
 //@ ensures[refused] (len(p1) != len(p2) || len(p2) != old(len(*p))) ==> isnil(result)
@@ -99,7 +99,7 @@ package polynomial
 
 //@ func MultiLin.Add
 //@ layer ring fr.Element
-//@ option slicealias
+//@ option slicealias prefix
 //@ requires len(right) == len(left) && len(*m) == len(left)
 //@ loop 0
 //@ + invariant[prefix] 0 <= i && i <= size && size == len(left) && len(*m) == size && forall(j, 0, i, (*m)[j] == old(left[j]) + old(right[j])) && forall(j, i, size, left[j] == old(left[j]) && right[j] == old(right[j]))
@@ -128,7 +128,7 @@ package polynomial
 
 //@ func Polynomial.Set
 //@ layer ring fr.Element
-//@ option slicealias
+//@ option slicealias prefix
 //@ loop 0
 //@ + invariant[prefix] 0 <= i && i <= len(p1) && len(*p) == len(p1) && forall(j, 0, i, (*p)[j] == old(p1[j])) && forall(j, i, len(p1), p1[j] == old(p1[j]))
 //@ ensures[length] len(*p) == len(p1)
@@ -138,7 +138,7 @@ package polynomial
 
 //@ func Polynomial.Equal
 //@ layer ring fr.Element
-//@ option slicealias
+//@ option slicealias prefix
 //@ loop 0
 //@ + invariant[prefix] -1 <= rangeindex && rangeindex < len(p1) && len(*p) == len(p1) && forall(j, 0, rangeindex+1, iszero((*p)[j] - p1[j]))
 //@ ensures[sound] result ==> len(*p) == len(p1) && forall(j, 0, len(p1), iszero((*p)[j] - p1[j]))
@@ -148,11 +148,11 @@ package polynomial
 //@ func Polynomial.Add
 //@ layer ring fr.Element
 //@ option nomerge
-//@ option slicealias
+//@ option slicealias prefix
 //@ loop 0
 //@ + invariant[in-place-bigger] 0 <= i && i <= len(smaller) && len(*p) == old(len(*p)) && forall(j, 0, i, (*p)[j] == old((*p)[j]) + ite(len(p1) < len(p2), old(p1[j]), old(p2[j]))) && forall(j, i, len(*p), (*p)[j] == old((*p)[j]))
 //@ loop 1
-//@ + invariant[in-place-smaller] 0 <= i && i <= len(smaller) && len(*p) == old(len(*p)) && forall(j, 0, i, (*p)[j] == old((*p)[j]) + ite(len(p1) < len(p2), old(p2[j]), old(p1[j]))) && forall(j, i, len(*p), (*p)[j] == old((*p)[j]))
+//@ + invariant[in-place-smaller] 0 <= i && i <= len(smaller) && len(*p) == old(len(*p)) && forall(j, 0, i, (*p)[j] == old((*p)[j]) + ite(len(p1) < len(p2), old(p2[j]), old(p1[j]))) && forall(j, i, len(*p), (*p)[j] == old((*p)[j])) && forall(j, i, len(p1), p1[j] == old(p1[j])) && forall(j, i, len(p2), p2[j] == old(p2[j]))
 //@ loop 2
 //@ + invariant[prefix] 0 <= i && i <= len(smaller) && len(res) == len(bigger) && forall(j, 0, i, res[j] == bigger[j] + smaller[j]) && forall(j, i, len(bigger), res[j] == bigger[j])
 //@ ensures[length] len(*p) == max(len(p1), len(p2))
